@@ -9,26 +9,32 @@
 # run: PYTHONDONTWRITEBYTECODE=1 PYTHONPATH=/repo /venv/bin/python harness/denseonlinegen_check.py build/DenseOnlineGenCases.v
 import copy, importlib, importlib.util, random, re, sys
 
-argv = sys.argv[1:]
+argv = [a for a in sys.argv[1:] if a != '--class-only']
 def opt(name, default):
     if name in argv:
         i = argv.index(name); v = argv[i + 1]; del argv[i:i + 2]; return v
     return default
 N, SEED, GEN = int(opt('--n', '150')), int(opt('--seed', '20260926')), opt('--gen', 'coq/theories/DenseOnlineGen.v')
+ONLY = opt('--only', None)             # X,Y: only these classes (e.g. OnceTimed,HistoricallyTimed)
 CLASSFILE = opt('--class-file', None)      # REL=PATH: a (scratch, modified) copy instead of the installed module REL
 OUT = argv[0]
 rnd = random.Random(SEED)
 INF = float('inf')
 gen_text = open(GEN).read()
 
+EXTRA, INITP, FIELDS = {}, {}, {}
 classes = []     # (X, rel path, class name, fields [(name, type)], arity)
 for m in re.finditer(r'\(\* -+ (\S+) : class (\w+) -+ \*\)\n(.*?)(?=\n\(\* -+ |\nDefinition gen_online_class_count)', gen_text, re.S):
     rel, cname, body = m.group(1), m.group(2), m.group(3)
-    X = cname[:-len('Operation')]
+    X = re.search(r'Definition (\w+)_init ', body).group(1)
     rec = re.search(r'Record %s_state .*?\{ (.*?) \}\.' % X, body)
     fields = [tuple(x.strip().split(' : ')) for x in rec.group(1).split(';')] if rec else []
     fields = [(f[len(X) + 1:], ty) for f, ty in fields]
-    up = re.search(r'Definition gen_%s_update .*?\(st : %s_state T\)(.*?) : option' % (X, X), body).group(1)
+    upm = re.search(r'Definition gen_%s_update (.*?)\(st : %s_state T\)(.*?) : option' % (X, X), body)
+    up = upm.group(2)
+    EXTRA[X] = ''.join(a for q, a in (('(tadd :', ' tz_add'), ('(tzero :', ' (T 0)'), ('(tinf :', ' TInf')) if q in upm.group(1))
+    INITP[X] = re.findall(r'\(\w+ : ([^()]+)\)', re.search(r'Definition %s_init \{VS : Val\} \(T : Type\)(.*?) : %s_state T' % (X, X), body).group(1))
+    FIELDS[X] = fields
     classes.append((X, rel, cname, fields, up.count('psig T')))
 
 def load(rel, cname):
@@ -51,7 +57,9 @@ def ct(t): return 'TInf' if t == INF else 'T (%d)' % t
 def cs(s): return '(%s, %s)' % (ct(s[0]), cz(s[1]))
 def csig(l): return '[' + '; '.join(cs(s) for s in l) + ']'
 
-FIN = {'Iff', 'Xor', 'Addition', 'Subtraction', 'Multiplication', 'Abs', 'Negate'}
+FIN = {'Iff', 'Xor', 'Addition', 'Subtraction', 'Multiplication', 'Abs', 'Negate', 'Predicate', 'IAPredicate'}
+CMPS = ['CLt', 'CLeq', 'CEq', 'CNeq', 'CGt', 'CGeq']                                              # by StlComparisonOperator.value
+SEMS = ['Standard', 'OutputRobustness', 'InputVacuity', 'InputRobustness', 'OutputVacuity']      # in the order of the members of Semantics
 def values(X, side, n):
     if X == 'Division': return [2 * rnd.randint(-4, 4) for _ in range(n)] if side == 0 else [rnd.choice([1, -1, 2, -2]) for _ in range(n)]
     if X == 'Pow': return [rnd.randint(-3, 3) for _ in range(n)] if side == 0 else [rnd.randint(0, 3) for _ in range(n)]
@@ -84,11 +92,31 @@ def batches(X, side, k):
 
 cases, none_count, dropped, per = [], 0, 0, {}
 for X, rel, cname, fields, arity in classes:
+    if ONLY and X not in ONLY.split(','): continue
+    if CLASSFILE and '--class-only' in sys.argv and rel != CLASSFILE.split('=')[0]: continue
     C = load(rel, cname)
     for _ in range(N):
         k = rnd.randint(1, 4)
         ins = [batches(X, s, k) for s in range(arity)]
-        obj, outs, bad = C(), [], False
+        iargs = []
+        if INITP[X] == ['Z', 'Z']:        # (begin, end) of a bounded operation
+            b0 = rnd.choice([0, 0, 1, 2, 3]); iargs = [b0, b0 + rnd.choice([0, 1, 2, 4])]
+        elif INITP[X] == ['V']: iargs = [rnd.choice([INF, -INF, 0, 3, -2])]
+        elif INITP[X][:1] == ['cmp']:
+            from rtamt.semantics.enumerations.comp_oper import StlComparisonOperator
+            from rtamt.semantics.enumerations.options import Semantics
+            iargs = [rnd.choice(list(StlComparisonOperator))]
+            if INITP[X] == ['cmp', 'semantics', 'list nat', 'list nat']: iargs += [rnd.choice(list(Semantics)), rnd.choice([[], ['x'], []]), rnd.choice([[], ['y', 'z']])]
+            elif INITP[X] != ['cmp']: raise SystemExit('unknown __init__ parameters of ' + cname)
+        elif INITP[X]: raise SystemExit('unknown __init__ parameters of ' + cname)
+        obj, outs, bad = C(*iargs), [], False
+        def carg(q, ty):
+            if ty == 'Z': return '%d' % q
+            if ty == 'V': return cz(q)
+            if ty == 'cmp': return CMPS[q.value]
+            if ty == 'semantics': return SEMS[list(type(q)).index(q)]
+            if ty == 'list nat': return '[%s]' % '; '.join('%d%%nat' % k_ for k_ in range(len(q)))
+            raise SystemExit(ty)
         for c in range(k):
             args = [copy.deepcopy(ins[s][c]) for s in range(arity)]
             try:
@@ -101,21 +129,33 @@ for X, rel, cname, fields, arity in classes:
             if bad: exp = 'None'
             else:
                 st = []
-                for f, ty in fields:
-                    x = getattr(obj, f)
-                    st.append(csig(x) if ty == 'psig T' else ('[' + (cs(x) if x else '') + ']') if ty.startswith('option') else '[(T 0, %s)]' % cz(x))
+                def walk(o, fl):
+                    for f, ty in fl:
+                        if f == 'base' and ty.endswith('_state T'): yield from walk(o, FIELDS[ty[:-8]])       # the attributes of the base class
+                        elif ty.endswith('_state T'): yield from walk(getattr(o, f), FIELDS[ty[:-8]])
+                        else: yield getattr(o, f), ty
+                for x, ty in walk(obj, fields):
+                    if ty == 'list (ppiece T)': st += ['[' + '; '.join('(%s, %s)' % (ct(q[k_]), cz(q[2])) for q in x) + ']' for k_ in (0, 1)]
+                    elif ty == 'xstamp T': st.append('[(T 0, NegInf)]' if x == -INF else '[(%s, Fin 0)]' % ct(x))
+                    elif ty in ('Z', 'bool'): st.append('[(T (%d), Fin 0)]' % int(x))
+                    elif ty == 'V': st.append('[(T 0, %s)]' % cz(x))
+                    elif ty == 'cmp': st.append('[(T (%d), Fin 0)]' % x.value)
+                    elif ty == 'semantics': st.append('[(T (%d), Fin 0)]' % list(type(x)).index(x))
+                    elif ty == 'list nat': st.append('[(T (%d), Fin 0)]' % len(x))
+                    else: st.append(csig(x) if ty == 'psig T' else ('[' + (cs(x) if x else '') + ']') if ty.startswith('option') else '[(T 0, %s)]' % cz(x))
                 exp = 'Some ([%s], [%s])' % ('; '.join(csig(o) for o in outs), '; '.join(st))
         except ValueError:
             dropped += 1; continue
         none_count += bad
         per[X] = per.get(X, 0) + 1
         bs = '[%s]' % '; '.join('(%s)' % ', '.join(csig(ins[s][c]) for s in range(arity)) for c in range(k))
-        cases.append((X, 'run_%s %s' % (X, bs), exp))
+        if arity == 0: bs = '[%s]' % '; '.join(['tt'] * k)
+        cases.append((X, 'run_%s %s%s' % (X, ''.join('(%s) ' % carg(q, ty_) for q, ty_ in zip(iargs, INITP[X])), bs), exp))
 
 with open(OUT, 'w') as f:
     f.write('(* GENERATED by harness/denseonlinegen_check.py: %d cases (seed %d), %d expect None, %d dropped (NaN / inexact) *)\n'
             % (len(cases), SEED, none_count, dropped))
-    f.write('From Coq Require Import List Bool ZArith.\nFrom RV Require Import Val Syntax PySem PyDense ExtZ Dense DenseMerge DenseOnlineGen.\nImport ListNotations.\n'
+    f.write('From Coq Require Import List Bool ZArith.\nFrom RV Require Import Val Syntax IA PySem PyDense ExtZ Dense DenseMerge DenseOnlineGen.\nImport ListNotations.\n'
             'Local Open Scope Z_scope.\n'
             'Definition ez_eqb (a b : extz) : bool := match a, b with NegInf, NegInf | PosInf, PosInf => true | Fin x, Fin y => x =? y | _, _ => false end.\n'
             'Definition tz_eqb (a b : tz) : bool := match a, b with TInf, TInf => true | T x, T y => x =? y | _, _ => false end.\n'
@@ -128,13 +168,33 @@ with open(OUT, 'w') as f:
             'Fixpoint runs {St B} (upd : St -> B -> option (St * E)) (st : St) (bs : list B) : option (St * list E) :=\n'
             '  match bs with [] => Some (st, []) | b :: r => match upd st b with None => None | Some (st1, o) =>\n'
             '    match runs upd st1 r with None => None | Some (st2, os) => Some (st2, o :: os) end end end.\n')
+    f.write('Definition cmp_enc (c : cmp) : Z := match c with CLt => 0 | CLeq => 1 | CEq => 2 | CNeq => 3 | CGt => 4 | CGeq => 5 end.\n'
+            'Definition sem_enc (c : semantics) : Z := match c with Standard => 0 | OutputRobustness => 1 | InputVacuity => 2 | InputRobustness => 3 | OutputVacuity => 4 end.\n')
+    f.write('Definition tz_add (t : tz) (z : Z) : tz := match t with T x => T (x + z) | TInf => TInf end.\n'
+            'Definition xs_enc (x : xstamp tz) : E := match x with XNeg => [(T 0, NegInf)] | XFin t => [(t, Fin 0)] | XPos => [(TInf, Fin 0)] end.\n'
+            'Definition pcs_lo (l : list (@ppiece ExtZVal tz)) : E := map (fun p => (pp_lo p, pp_v p)) l.\n'
+            'Definition pcs_hi (l : list (@ppiece ExtZVal tz)) : E := map (fun p => (pp_hi p, pp_v p)) l.\n')
+    def enc(X, fn, ty, s_='s'):
+        a = '%s_%s %s' % (X, fn, s_)
+        if ty.endswith('_state T'): return '; '.join(enc(ty[:-8], f2, t2, '(%s)' % a) for f2, t2 in FIELDS[ty[:-8]])
+        if ty == 'psig T': return a
+        if ty.startswith('option'): return 'osig (%s)' % a
+        if ty == 'list (ppiece T)': return 'pcs_lo (%s); pcs_hi (%s)' % (a, a)
+        if ty == 'xstamp T': return 'xs_enc (%s)' % a
+        if ty == 'Z': return '[(T (%s), Fin 0)]' % a
+        if ty == 'cmp': return '[(T (cmp_enc (%s)), Fin 0)]' % a
+        if ty == 'semantics': return '[(T (sem_enc (%s)), Fin 0)]' % a
+        if ty == 'list nat': return '[(T (Z.of_nat (length (%s))), Fin 0)]' % a
+        if ty == 'bool': return '[(T (if %s then 1 else 0), Fin 0)]' % a
+        return '[(T 0, %s)]' % a
     for X, rel, cname, fields, arity in classes:
-        st = '; '.join(('%s_%s s' % (X, fn)) if ty == 'psig T' else ('osig (%s_%s s)' % (X, fn)) if ty.startswith('option') else '[(T 0, %s_%s s)]' % (X, fn)
-                       for fn, ty in fields)
-        upd = ('fun s b => @gen_%s_update ExtZVal ExtZArith tz tlt teq s b' % X) if arity == 1 else \
-              ('fun s (b : E * E) => @gen_%s_update ExtZVal ExtZArith tz tlt teq s (fst b) (snd b)' % X)
-        f.write('Definition run_%s bs : option (list E * list E) := match runs (%s) (@%s_init ExtZVal tz) bs with None => None | Some (s, os) => Some (os, [%s]) end.\n'
-                % (X, upd, X, st))
+        st = '; '.join(enc(X, fn, ty) for fn, ty in fields)
+        upd = ('fun s (b : unit) => @gen_%s_update ExtZVal ExtZArith tz tlt teq%s s' % (X, EXTRA[X])) if arity == 0 else \
+              ('fun s b => @gen_%s_update ExtZVal ExtZArith tz tlt teq%s s b' % (X, EXTRA[X])) if arity == 1 else \
+              ('fun s (b : E * E) => @gen_%s_update ExtZVal ExtZArith tz tlt teq%s s (fst b) (snd b)' % (X, EXTRA[X]))
+        ip = ' '.join('p%d' % q for q in range(len(INITP[X])))
+        f.write('Definition run_%s %s bs : option (list E * list E) := match runs (%s) (@%s_init ExtZVal tz %s) bs with None => None | Some (s, os) => Some (os, [%s]) end.\n'
+                % (X, ip, upd, X, ip, st))
     CH = 60
     nch = (len(cases) + CH - 1) // CH
     for c in range(nch):
